@@ -116,6 +116,9 @@ def query_cases(tier):
     for p in range(0, pmax + 1):
         for name, br, m in KV.kv_shapes(p):
             cases.append({"part": "queries", "src": "alphabet", "p": p, "pattern": name, "mults": m})
+    for p in range(0, 4):
+        for name, br, m in KV.kv_shapes(p, patterns=tuple(KV.EXTREME), maxmult=2):
+            cases.append({"part": "queries", "src": "alphabet", "p": p, "pattern": name, "mults": m})
     for p in (0, 1, 2, 3):
         for (a, b) in INTERVALS[::3] if tier == "quick" else INTERVALS:
             for n in (1, 2, 3, 7, 10, 49, 64) if tier == "quick" else list(range(1, 65)):
@@ -128,7 +131,7 @@ def _case_knots(case):
     """(float knot array, p) from exact arithmetic (independent of make_knots)"""
     p = case["p"]
     if case["src"] == "alphabet":
-        return KV.knots_from(KV.PATTERNS[case["pattern"]], case["mults"], p), p
+        return KV.knots_from(KV.breaks_of(case["pattern"]), case["mults"], p), p
     a, b, n, mult = case["a"], case["b"], case["n"], case["mult"]
     A, B = Fraction(a), Fraction(b)
     br = [float(A + i * (B - A) / n) for i in range(n + 1)]
@@ -236,7 +239,7 @@ def refine_cases(tier):
 def check_refine(case):
     from pyiga import bspline
     p = case["p"]
-    br = KV.PATTERNS[case["pattern"]]
+    br = KV.breaks_of(case["pattern"])
     kn = KV.knots_from(br, case["mults"], p)
     cand = []
     for x0, x1 in zip(br[:-1], br[1:]):
@@ -338,7 +341,7 @@ def deriv_cases(tier):
 def check_derivative(case):
     from pyiga import bspline, spline
     p = case["p"]
-    br = KV.PATTERNS[case["pattern"]]
+    br = KV.breaks_of(case["pattern"])
     kn = KV.knots_from(br, case["mults"], p)
     R = bsp.RefKV(kn, p)
     pts = KV.eval_points(br, p)
